@@ -13,6 +13,7 @@ import (
 	"sort"
 	"strings"
 	"testing"
+	"time"
 
 	"verif.local/engine/enum"
 	"verif.local/engine/evidence"
@@ -276,7 +277,27 @@ func (s *c20Sys) deliver(p *c20Pkt, copies int) error {
 	var out []c20Surfaced
 	for i := 0; i < copies+3; i++ {
 		buf := bytes.Repeat([]byte{0xee}, 2048)
-		n, addr, err := s.pc.ReadFrom(buf)
+		// hang guard only (a ReadFrom takes microseconds): a demultiplexer that parks inside ReadFrom
+		// withholds every packet queued behind the one it is handling
+		type rres struct {
+			n    int
+			addr net.Addr
+			err  error
+		}
+		rc := make(chan rres, 1)
+		go func() {
+			n, addr, err := s.pc.ReadFrom(buf)
+			rc <- rres{n, addr, err}
+		}()
+		var n int
+		var addr net.Addr
+		var err error
+		select {
+		case r := <-rc:
+			n, addr, err = r.n, r.addr, r.err
+		case <-time.After(30 * time.Second):
+			return fmt.Errorf("read-blocked: ReadFrom did not return while handling %s (copy %d of %d, event channels not drained in between): every packet behind it is withheld from QUIC", p.Name, i+1, copies)
+		}
 		if err == errC20Empty {
 			break
 		}
